@@ -6,6 +6,7 @@ import (
 
 	"verif/core"
 	"verif/filecheck"
+	"verif/simdisk"
 )
 
 // C12: fill-to-error / drain cycles on small bounded files.
@@ -110,6 +111,17 @@ func runFillDrainCase(c *core.Case) *core.Result {
 	if !q.Open() {
 		return finish()
 	}
+	if c.Idx%5 == 4 {
+		// additionally inject I/O errors into flush/ACK transactions: a flush
+		// that fails in Commit (pages already assigned) must be retried cleanly
+		q.Faulty = true
+		var fl []simdisk.Fault
+		for k := 0; k < 6; k++ {
+			fl = append(fl, simdisk.Fault{Kind: simdisk.KSync, Index: 10 + k*60 + r.Intn(50), Burst: 1})
+		}
+		q.Disk.SetFaults(fl)
+		res.Add("fault_cases", 1)
+	}
 	for traffic < target && !q.failed {
 		cycles++
 		// fill until the file reports full (or a cap of events)
@@ -199,7 +211,11 @@ func runFillDrainCase(c *core.Case) *core.Result {
 		for _, e := range q.Events {
 			traffic += int64(len(e))
 		}
-		if r.Chance(1, 6) && !q.Reopen() {
+		if q.UnsafeReopen && q.cbFlushed+q.Acked > q.lastProgress {
+			q.UnsafeReopen = false // a later transaction committed
+		}
+		q.lastProgress = q.cbFlushed + q.Acked
+		if r.Chance(1, 6) && !q.UnsafeReopen && !q.Reopen() {
 			return finish()
 		}
 	}
